@@ -180,6 +180,33 @@ var Probes = []Probe{
 		}},
 	{ID: "P1", Props: []string{"C04"}, Input: "x := [1]; for a, b, c in x {}", WhatFail: "more than two names before 'in' were accepted with nil key/value and the compiler panicked (nil dereference)",
 		Run: expectNoPanic("x := [1]\nfor a, b, c in x {}\n")},
+	{ID: "F1", Props: []string{"C01", "C10"}, Input: "z := -0.0; y := 1.0 / (z * z)", WhatFail: "float arithmetic returned its left operand when the result compared equal to it: (-0.0)*(-0.0) yielded -0.0, so 1.0/(z*z) was -Inf instead of +Inf",
+		Run: expectGlobal("z := -0.0\ny := 1.0 / (z * z)\n", "y", "(f 9218868437227405312)")},
+	{ID: "O10", Props: []string{"C05"}, Input: "m := {a: 1, b: 2}; out := []; for k, v in m { delete(m, \"a\"); delete(m, \"b\"); out = append(out, v) }; host: Get(\"out\").String()", WhatFail: "a key deleted during for-in made the iterator hand a Go nil to the script; the nil ended up in a global and the host's Variable.String() panicked",
+		Run: func() (fails bool, obs string) {
+			defer func() {
+				if p := recover(); p != nil {
+					fails, obs = true, fmt.Sprint("panic: ", p)
+				}
+			}()
+			s := tengo.NewScript([]byte("m := {a: 1, b: 2}\nout := []\nfor k, v in m { delete(m, \"a\"); delete(m, \"b\"); out = append(out, v) }\n"))
+			c, err := s.Compile()
+			if err != nil {
+				return true, err.Error()
+			}
+			ctx, cancel := context.WithTimeout(context.Background(), 5*time.Second)
+			defer cancel()
+			if err := c.RunContext(ctx); err != nil {
+				return false, "" // an error value is acceptable
+			}
+			_ = c.Get("out").String()
+			for _, o := range c.Get("out").Array() {
+				if o == nil {
+					return true, "nil element in a global array"
+				}
+			}
+			return false, ""
+		}},
 	{ID: "O17", Props: []string{"C16", "C01"}, Input: "f := func(n) { if n == 0 { return 5 }; f(n-1) }; out := f(3)", WhatFail: "a statement-position self call followed by the implicit return is run as a tail call: f(3) yields 5, not undefined",
 		Run: expectGlobal("f := func(n) { if n == 0 { return 5 }; f(n-1) }\nout := f(3)\nok := is_undefined(out)\n", "ok", "(b 1)")},
 }
